@@ -77,6 +77,12 @@ func (r *round1) Update(msg model.ConsensusMessage) *Error {
 	gid := groupsig.DeserializeID(bh.GroupId)
 	si := cvm.SignInfo
 
+	// only members of the block's group have a share: a key announced by anybody else proves nothing
+	if !r.group.MemExist(si.GetSignerID()) {
+		r.logger.Errorf("signer is not a member of the group, id: %s. hash: %s, height: %d", si.GetSignerID().GetHexString(), cvm.BlockHash.String(), bh.Height)
+		return nil
+	}
+
 	// get pubKey
 	pk, ok := group_create.GroupCreateProcessor.GetMemberSignPubKey(gid, si.GetSignerID())
 	if !ok {
